@@ -618,6 +618,24 @@ func (env *SpecEnv) call(n *ast.CallExpr) Val {
 			return vBool(sEq(a.T, b.T))
 		}
 		return vBool(sEq(a.T, b.T))
+	case "isConcat":
+		// isConcat(r, a, b): r == a ++ b element-wise (scalar or reference elements)
+		need(3)
+		r, a, b := arg(0), arg(1), arg(2)
+		m := env.st.get("Mem")
+		mr, ma, mb := sSel(m, slcArr(r.T)), sSel(m, slcArr(a.T)), sSel(m, slcArr(b.T))
+		j := sym(e.fresh("q"))
+		mid := sAdd(slcOff(r.T), slcLen(a.T))
+		p1 := fmt.Sprintf("(forall ((%s Int)) (! (=> (and (<= %s %s) (< %s %s)) (= (select %s %s) (select %s %s))) :pattern ((select %s %s))))",
+			j, slcOff(r.T), j, j, mid, mr, j, ma, sAdd(sSub(j, slcOff(r.T)), slcOff(a.T)), mr, j)
+		j2 := sym(e.fresh("q"))
+		p2 := fmt.Sprintf("(forall ((%s Int)) (! (=> (and (<= %s %s) (< %s %s)) (= (select %s %s) (select %s %s))) :pattern ((select %s %s))))",
+			j2, mid, j2, j2, sAdd(mid, slcLen(b.T)), mr, j2, mb, sAdd(sSub(j2, mid), slcOff(b.T)), mr, j2)
+		return vBool(sAnd(sEq(slcLen(r.T), sAdd(slcLen(a.T), slcLen(b.T))), p1, p2))
+	case "sameSlice":
+		need(2)
+		a, b := arg(0), arg(1)
+		return vBool(sAnd(sEq(slcArr(a.T), slcArr(b.T)), sEq(slcOff(a.T), slcOff(b.T)), sEq(slcLen(a.T), slcLen(b.T))))
 	case "sameArray":
 		need(2)
 		return vBool(sEq(slcArr(arg(0).T), slcArr(arg(1).T)))
@@ -677,6 +695,16 @@ func (env *SpecEnv) call(n *ast.CallExpr) Val {
 	}
 	if sf, ok := e.W.specFuncs[fname]; ok {
 		return env.specCall(sf, n)
+	}
+	if m, ok := e.W.macros[fname]; ok {
+		if len(n.Args) != len(m.Params) {
+			env.fail("macro %s expects %d arguments", fname, len(m.Params))
+		}
+		sub := env.fork()
+		for i, p := range m.Params {
+			sub.vars[p] = env.eval(n.Args[i])
+		}
+		return sub.eval(m.Body)
 	}
 	if env.in != nil {
 		if v, ok := env.freshPred(fname, n); ok {
